@@ -219,6 +219,7 @@ SubstRefs(refs, old, new) ==
 (* STEP *)
 
 Ok(st)      == [st |-> st, res |-> "ok"]
+Unmodelled(st) == [st |-> st, res |-> "unmodelled"]
 Fail(st, e) == [st |-> st, res |-> e]
 
 \* --- header -------------------------------------------------------------
@@ -270,7 +271,17 @@ AddDecided(st, l) ==
     THEN {[st |-> st, res |-> "unmodelled"]}   \* an ordered group cannot list a set: not specified
   ELSE IF IsLink(l) THEN
     LET clash == {i \in DOMAIN st.lines : LinkClash(st.lines[i], l)} IN
-    IF Named(l) /\ l.name \in NamesOf(st) THEN {Fail(st, "NotUniqueError")}
+    IF \E i \in clash : IsComplement(l, st.lines[i]) /\ SameEnds(l, st.lines[i])
+      \* a self-complementary link (hairpin with a palindromic overlap) given again: it is the
+      \* complement of the stored one (no-op, C12) and identical to it (refusal allowed, C09)
+      THEN {Ok(st), Fail(st, "NotUniqueError")}
+    ELSE IF Named(l) /\ l.name \in NamesOf(st) /\ ~\E i \in clash : IsComplement(l, st.lines[i])
+      THEN {Fail(st, "NotUniqueError")}
+    ELSE IF \E r1, r2 \in Unserved(st) : EdgeKey(r1) = EdgeKey(r2) /\ Serves(l, r1) /\ ~Serves(l, r2)
+      \* two paths wait for links on the same pair of segment ends, and the new link serves only one
+      \* of them: how gfapy's shared placeholder link is split is not specified (it needs an
+      \* ambiguous document: parallel links under a path with unspecified overlaps)
+      THEN {Unmodelled(st)}
     ELSE IF clash = {} THEN {Ok([st EXCEPT !.lines = Append(@, l)])}
     ELSE IF \E i \in clash : IsComplement(l, st.lines[i]) /\ ~SameEnds(l, st.lines[i])
       THEN {Ok(st)}                         \* complement of a stored link: nothing added (C12)
@@ -325,10 +336,16 @@ Removed(st, seed) ==
 \* the path is bound to is left open, so a removal cascade is not predicted
 Ambiguous(st) == \E r \in AllRequired(st) :
    Cardinality({j \in LinkIdx(st) : Serves(st.lines[j], r)}) > 1
-Unmodelled(st) == [st |-> st, res |-> "unmodelled"]
+
+\* a removal that leaves a group without any item (its only item was a gap): whether the
+\* emptied group stays, and how it is written, is not specified
+EmptiesGroup(st, seed) ==
+  LET post == Removed(st, seed) IN
+  \E i \in DOMAIN post.lines : IsGroup(post.lines[i]) /\ post.lines[i].refs = <<>>
 
 Rm(st, id) ==
   IF Ambiguous(st) THEN {Unmodelled(st)}
+  ELSE IF IdxNamed(st, id) # {} /\ EmptiesGroup(st, IdxNamed(st, id)) THEN {Unmodelled(st)}
   ELSE IF IdxNamed(st, id) # {} THEN {Ok(Removed(st, IdxNamed(st, id)))}
   ELSE IF id \in PlaceholderIds(st)
     THEN {Ok(Removed(st, {i \in DOMAIN st.lines : id \in Mentions(st.lines[i])}))}
@@ -339,7 +356,7 @@ Rm(st, id) ==
 Disc(st, l) ==
   LET tgt == {i \in DOMAIN st.lines : Norm(st.lines[i]) = Norm(l)} IN
   IF tgt = {} THEN {Fail(st, "Error")}
-  ELSE IF Ambiguous(st) THEN {Unmodelled(st)}
+  ELSE IF Ambiguous(st) \/ EmptiesGroup(st, {CHOOSE i \in tgt : TRUE}) THEN {Unmodelled(st)}
   ELSE {Ok(Removed(st, {CHOOSE i \in tgt : TRUE}))}
 
 \* --- graph clean-up operations defined through removal ------------------------
